@@ -125,8 +125,8 @@ class C07(Check):
             "dicts and the caller's input_kwargs are unchanged; 2-6 runs per history; non-trivial = >=2 runs with "
             'different variants on a program whose one-of had a losing candidate or whose recurrent subgraph iterated; '
             'distinct = digest of (program, ops)')
-    quick_examples = 120
-    thorough_examples = 500
+    quick_examples = 500
+    thorough_examples = 1500
     max_steps = 6
     assumptions = EngineCheck.assumptions
 
